@@ -11,6 +11,9 @@ CHECKS = {
     'C03': ('model_checking', 'DESIGN.md C03',
             'IL class/definition rules asserted by an IL semantics on everything the back end lowers (operators, conversions, switch ladders, automatic initialisation), '
             'all builder call sequences up to the bound keep blocks well-terminated, data definitions have exactly the object size, jumps to undefined/duplicate labels are diagnosed.'),
+    'C08': ('model_checking', 'DESIGN.md C08',
+            'Structural half of the property: for struct definitions built by the real addmember (bit-field widths symbolic) the aggregate description printed by emittype, laid out '
+            'with the backend rule, has the size, alignment, per-eightbyte register class and member offsets of the C type.'),
     'C09': ('model_checking', 'DESIGN.md C09',
             'declcommon/getlinkage as a step function over a fully symbolic tuple (kind, storage class, scope, visible prior declaration state, assembler labels) '
             'against a transcription of C11 6.2.2p3-7 and the redeclaration constraints.'),
